@@ -5,19 +5,19 @@ ROOT = os.path.dirname(os.path.dirname(os.path.abspath(__file__)))
 props = [json.loads(l) for l in open(os.path.join(ROOT, "properties.jsonl"), encoding="utf-8")]
 T = {
  "C01": ("MC_Spell: the TLA+ spelling grammar drives the interpreter model of each of the 7 languages word by word (NeverSplit, RoundTrip); TLC-generated phrases (31 variants) replayed on the real code; TLC judges every observation; apply-level trace comparison with the model over the full vocabularies", "spec/Speller_*.tla are the standard spellings and accepted variants; representative 3-digit groups + exhaustive small ranges + seeded numbers below 10^12"),
- "C02": ("TLC model checking of the scanner model (spliceable occurrence lists) + TLC-judged splice equation on TLC-generated texts and id-carrying token streams", "finite character alphabet (spec/Chars.tla); texts up to 8 words; token streams up to 10 tokens"),
- "C03": ("TLC-generated degenerate/hostile inputs replayed through every entry point at 8 thresholds; TLC judges the outcomes", "panics caught per call; an abort/hang of the child process is reported as a failure; 30-atom nasty set, long inputs up to 2^15 repetitions"),
+ "C02": ("TLC model checking of the scanner model (spliceable occurrence lists) + TLC-judged splice equation on TLC-generated texts, id-carrying token streams, hostile texts and a Unicode character sweep", "finite character alphabet (spec/Chars.tla) for the model; texts up to 8 words; token streams up to 10 tokens; sweep over 22 blocks (thorough: BMP + 3 astral blocks)"),
+ "C03": ("TLC-generated degenerate/hostile inputs replayed through every entry point at 8 thresholds; TLC judges the outcomes", "panics caught per call; an abort/hang of the child process is reported as a failure; 34-atom nasty set, long inputs up to 2^15 repetitions; 2^15..2^18-word stretches without a number run by an unoptimised build on a 2 MiB stack"),
  "C04": ("MC_SpellOrd: the TLA+ ordinal grammar drives the interpreter models of the 7 languages; TLC-generated phrases (variants x inflections) replayed; TLC judges text, flag and value", "spec/Speller_*.tla ordinal grammars; ranks per tier"),
  "C05": ("TLA+ decimal grammar (integer, separator word, fraction) as oracle; TLC-generated phrases replayed; TLC judges", "integer parts from clean cardinal forms; fractions up to 6 digits"),
  "C06": ("TLC model checking of the scanner model against the numeral grammar + TLC-judged occurrences of the real scanner on TLC-generated streams", "stream alphabets of spec/Vocab.tla; value compared exactly up to 15 significant digits"),
- "C07": ("TLC model checking (MC_Scanner span re-validation; MC_Lang: S2 as a state machine over the full vocabulary with the step property asserted on every transition; shift mutants refuted) + TLC-judged re-validation of every reported span on the real code", "stream alphabets of spec/Vocab.tla"),
+ "C07": ("TLC model checking (MC_Scanner span re-validation; MC_Lang: S2 as a state machine over the full vocabulary with the step property asserted on every transition; shift mutants refuted) + TLC-judged re-validation of every reported span on the real code (stream set, hinted token streams, every ordered pair of the full vocabularies)", "stream alphabets of spec/Vocab.tla; full vocabularies of the interpreter models (83-201 words per language)"),
  "C08": ("TLA+ lexeme grammar as oracle for the allowed readings of two consecutive numbers and of digit dictation; TLC-generated phrases replayed; TLC judges", "pairs below 100, digit sequences up to 8"),
  "C09": ("TLC model checking of the tracker against the declarative lone-number policy at several thresholds in lockstep + TLC-judged policy on the real scanner at 12 thresholds", "the language's conjunction counts as a linking word; known finding C09-dangling-separator"),
  "C10": ("MC_Api: whole-library model checked at every split point; self-composition: TLC-generated A S B cases (fresh interpreter per text) and spelled pairs x punctuation, three real rewrites each, TLC judges the equation", "separators of 3 ordinary words ending a sentence; parts up to 3 words incl. the ambiguous words with their triggers"),
  "C11": ("MC_Api (CaseOK) + self-composition: TLC-generated case variants, TLC judges equality of occurrences and the splice on each variant", "reversible case pairs of spec/Chars.tla only"),
  "C12": ("TLA+ model checking (TLC) of the DigitString state machine with the action property asserted on every transition + trace validation of recorded DigitString steps", "operation alphabets and buffer bounds of spec/MC_C12_*.cfg; digit arguments are ASCII digit strings"),
- "C13": ("TLC model checking of the facade state machine (3 mutants) + TLC-judged equality of concrete type, facade and ISO lookup on all languages' inputs", "non-codes: empty, digits, punctuation, gibberish"),
- "C14": ("TLC model checking of all interleavings of two-step calls against the Memo specification (shared-scratch mutant refuted) + TLC validation of recorded multi-thread histories", "real schedules are sampled; Send+Sync asserted at compile time"),
+ "C13": ("TLC model checking of the facade state machine (3 mutants) + TLC-judged equality of concrete type, facade and ISO lookup on all languages' inputs (texts, apply sequences, hinted token streams)", "non-codes: empty, digits, punctuation, gibberish"),
+ "C14": ("TLC model checking of all interleavings of two-step calls against the Memo specification (shared-scratch mutant refuted) + TLC validation of recorded histories (fresh reference, sequential passes, threads, second process environment, captured output)", "real schedules are sampled; Send+Sync asserted at compile time in a binary only this check builds (a failure is a violation)"),
  "C15": ("TLC model checking of the lazy iterator (iterator = batch, look-ahead bound, hints) + TLC-judged records of the real iterator over a counting input, comma twin, and stateful step-by-step comparison with the model", "hints on significant tokens only"),
  "C16": ("MC_Spell with k zero words for the 7 languages; TLA+ speller with k leading zero words; TLC-generated phrases replayed; TLC judges", "k up to 6"),
  "C17": ("MC_Api (WsOK), MC_Tokenizer + self-composition: TLC-generated whitespace substitutions over all 25 White_Space characters; TLC judges", "finite alphabet of spec/Chars.tla"),
